@@ -57,6 +57,9 @@ class Filler:
     def __init__(self, rng, vars_=None):
         self.r = rng
         self.vars = vars_ or rng.sample(VARS, rng.choice([1, 2, 2, 3]))
+        if vars_ is None and rng.random() < 0.12:
+            # every letter is its own variable: x and X are different ones
+            self.vars = [self.vars[0], self.vars[0].upper()] + self.vars[1:2]
 
     def c(self):
         return self.r.choice(COEF)
